@@ -25,6 +25,8 @@ import (
 //	stale-positions       repeated in-place deletion at positions computed before the deletions
 //	range-copy-update     a field of a by-value range variable over a slice of structs is assigned,
 //	                      the element is never written back and the copy is not used afterwards
+//	schema-alias          a.Schema = b.Schema between two records (SetSchema copies)
+//	stale-element-pointer p := &s[i]; s = append(s[:i], s[i+1:]...); p is used afterwards
 //	rebase-mismatch       an offset found by Index*(buf[a:], …) is rebased with a base other than a
 //	merge-progress        two-cursor merge of sorted lists that steps the cursor of the larger side
 
@@ -285,6 +287,131 @@ func idiomsOf(c *an.Ctx, d *an.FuncSrc) []idiomHit {
 		}
 		return true
 	})
+	// ---- a record borrows another record's schema slice
+	ast.Inspect(body, func(m ast.Node) bool {
+		as, ok := m.(*ast.AssignStmt)
+		if !ok || len(as.Lhs) != len(as.Rhs) {
+			return true
+		}
+		for i, l := range as.Lhs {
+			ls, ok1 := ast.Unparen(l).(*ast.SelectorExpr)
+			rs, ok2 := ast.Unparen(as.Rhs[i]).(*ast.SelectorExpr)
+			if !ok1 || !ok2 || ls.Sel.Name != "Schema" || rs.Sel.Name != "Schema" {
+				continue
+			}
+			isRec := func(e ast.Expr) bool {
+				t := info.TypeOf(e)
+				if t == nil {
+					return false
+				}
+				if p, ok := t.Underlying().(*types.Pointer); ok {
+					t = p.Elem()
+				}
+				n, ok := t.(*types.Named)
+				return ok && n.Obj().Name() == "Record" && n.Obj().Pkg() != nil && strings.HasSuffix(n.Obj().Pkg().Path(), "lib/record")
+			}
+			if isRec(ls.X) && isRec(rs.X) && types.ExprString(ls.X) != types.ExprString(rs.X) {
+				add("schema-alias", as, d.Name()+" lets "+types.ExprString(ls.X)+" share the schema slice of "+types.ExprString(rs.X)+" (no copy): when the source record is reused for the next series its field names and types change under the record that is being assembled")
+			}
+		}
+		return true
+	})
+	// ---- pointer to a slice element used after the slice was compacted in place
+	{
+		type eptr struct {
+			v    types.Object
+			of   string
+			node ast.Node
+		}
+		var ps []eptr
+		ast.Inspect(body, func(m ast.Node) bool {
+			as, ok := m.(*ast.AssignStmt)
+			if !ok || len(as.Lhs) != len(as.Rhs) {
+				return true
+			}
+			for i, rhs := range as.Rhs {
+				ue, ok := ast.Unparen(rhs).(*ast.UnaryExpr)
+				if !ok || ue.Op.String() != "&" {
+					continue
+				}
+				ix, ok := ast.Unparen(ue.X).(*ast.IndexExpr)
+				if !ok {
+					continue
+				}
+				if t := info.TypeOf(ix.X); t == nil {
+					continue
+				} else if _, isSlice := t.Underlying().(*types.Slice); !isSlice {
+					continue
+				}
+				id, ok := as.Lhs[i].(*ast.Ident)
+				if !ok {
+					continue
+				}
+				o := info.Defs[id]
+				if o == nil {
+					o = info.Uses[id]
+				}
+				if o != nil {
+					ps = append(ps, eptr{o, types.ExprString(ix.X), as})
+				}
+			}
+			return true
+		})
+		for _, ep := range ps {
+			ast.Inspect(body, func(m ast.Node) bool {
+				as, ok := m.(*ast.AssignStmt)
+				if !ok || len(as.Lhs) != 1 || len(as.Rhs) != 1 || as.Pos() <= ep.node.Pos() || types.ExprString(as.Lhs[0]) != ep.of {
+					return true
+				}
+				ce, ok := ast.Unparen(as.Rhs[0]).(*ast.CallExpr)
+				if !ok || len(ce.Args) != 2 || ce.Ellipsis == 0 {
+					return true
+				}
+				if id, ok := ce.Fun.(*ast.Ident); !ok || id.Name != "append" {
+					return true
+				}
+				lo, ok1 := ast.Unparen(ce.Args[0]).(*ast.SliceExpr)
+				hi, ok2 := ast.Unparen(ce.Args[1]).(*ast.SliceExpr)
+				if !ok1 || !ok2 || types.ExprString(lo.X) != ep.of || types.ExprString(hi.X) != ep.of {
+					return true
+				}
+				// the pointer is read after the removal, before it is assigned again
+				// (same enclosing statement list: positions after the removal up to the end of its block)
+				blockEnd := as.End()
+				for _, d2 := range enclosingBlocks(body, as) {
+					blockEnd = d2.End()
+					break
+				}
+				var reassigned ast.Node
+				ast.Inspect(body, func(k ast.Node) bool {
+					if a2, ok := k.(*ast.AssignStmt); ok && a2.Pos() > as.End() && a2.Pos() < blockEnd && reassigned == nil {
+						for _, l := range a2.Lhs {
+							if id, ok := l.(*ast.Ident); ok && (info.Uses[id] == ep.v || info.Defs[id] == ep.v) {
+								reassigned = a2
+							}
+						}
+					}
+					return true
+				})
+				used := false
+				ast.Inspect(body, func(k ast.Node) bool {
+					id, ok := k.(*ast.Ident)
+					if !ok || info.Uses[id] != ep.v || id.Pos() <= as.End() || id.Pos() >= blockEnd {
+						return true
+					}
+					if reassigned != nil && id.Pos() >= reassigned.Pos() {
+						return true
+					}
+					used = true
+					return true
+				})
+				if used {
+					add("stale-element-pointer", as, d.Name()+" removes an element from "+ep.of+" in place while "+ep.v.Name()+" (a pointer to an element of it taken before) is still used afterwards: the pointer now names the element that moved into the slot")
+				}
+				return true
+			})
+		}
+	}
 	// ---- an offset found in a sub-slice is rebased with another base
 	{
 		type found struct {
@@ -379,20 +506,60 @@ func idiomsOf(c *an.Ctx, d *an.FuncSrc) []idiomHit {
 // idiomSweep arms the generic idioms for the packages of one property.  accepted lists, by
 // "function: idiom", the hits of the pinned tree that were read and found harmless (one reason each).
 func idiomSweep(c *an.Ctx, id string, pkgs []string, floor int, accepted map[string]string) {
-	r := c.Rule(id, "K-IDIOM(sweep)", "no function in the source files of this property's anchors ("+strings.Join(pkgs, ", ")+") contains one of the generic defect idioms (aliased compaction, pooled return, unassigned shadowed error, lost shadow store, removal inside an index loop, stale positions, update of a range copy, sub-slice offset rebased with another base, merge stepping the larger side)")
+	r := c.Rule(id, "K-IDIOM(sweep)", "no function in the source files of this property's anchors ("+strings.Join(pkgs, ", ")+") contains one of the generic defect idioms (aliased compaction, pooled return, unassigned shadowed error, lost shadow store, removal inside an index loop, stale positions, update of a range copy, record schema shared without a copy, element pointer used after an in-place removal, sub-slice offset rebased with another base, merge stepping the larger side)")
 	n := 0
 	used := map[string]bool{}
-	// scope: the source files in which the rules of this property resolved a function (the files
-	// the property's mechanisms live in), within the listed packages
+	// scope: the functions declared in the property's anchor files and in the files in which its
+	// rules resolved a function, plus what those functions call (statically, depth <= 3) inside the
+	// listed packages — the code the property's mechanisms execute
 	files := map[string]bool{}
 	for _, fo := range c.P.ResolvedSpecs {
 		if src := c.P.Src(fo); src != nil {
 			files[c.P.Fset.Position(src.Decl.Pos()).Filename] = true
 		}
 	}
-	c.Extra[id+"_files_swept"] = len(files)
+	anchorSuffix := propAnchorFiles[strings.TrimSuffix(id, ".G")]
+	inScopeFile := func(name string) bool {
+		if files[name] {
+			return true
+		}
+		for _, sfx := range anchorSuffix {
+			if strings.HasSuffix(name, "/"+sfx) {
+				return true
+			}
+		}
+		return false
+	}
+	scope := map[*an.FuncSrc]bool{}
+	var frontier []*an.FuncSrc
 	for _, d := range c.P.AllDecls() {
-		if !an.InPkg(d, pkgs...) || !files[c.P.Fset.Position(d.Decl.Pos()).Filename] {
+		if an.InPkg(d, pkgs...) && inScopeFile(c.P.Fset.Position(d.Decl.Pos()).Filename) {
+			scope[d] = true
+			frontier = append(frontier, d)
+		}
+	}
+	for depth := 0; depth < 3 && len(frontier) > 0; depth++ {
+		var next []*an.FuncSrc
+		for _, d := range frontier {
+			ast.Inspect(d.Decl.Body, func(m ast.Node) bool {
+				ce, ok := m.(*ast.CallExpr)
+				if !ok {
+					return true
+				}
+				if cal := an.Callee(d.Pkg.TypesInfo, ce); cal != nil {
+					if cs := c.P.Src(cal); cs != nil && cs.Decl.Body != nil && !scope[cs] && an.InPkg(cs, pkgs...) {
+						scope[cs] = true
+						next = append(next, cs)
+					}
+				}
+				return true
+			})
+		}
+		frontier = next
+	}
+	c.Extra[id+"_functions_swept"] = len(scope)
+	for _, d := range c.P.AllDecls() {
+		if !scope[d] {
 			continue
 		}
 		n++
@@ -412,6 +579,18 @@ func idiomSweep(c *an.Ctx, id string, pkgs []string, floor int, accepted map[str
 	r.Floor(floor, "functions swept")
 }
 
+// enclosingBlocks returns the statement blocks that contain n, innermost first.
+func enclosingBlocks(root ast.Node, n ast.Node) []*ast.BlockStmt {
+	var out []*ast.BlockStmt
+	ast.Inspect(root, func(m ast.Node) bool {
+		if b, ok := m.(*ast.BlockStmt); ok && b.Pos() <= n.Pos() && n.End() <= b.End() {
+			out = append([]*ast.BlockStmt{b}, out...)
+		}
+		return true
+	})
+	return out
+}
+
 // IdiomCensus lists every hit of the generic idioms in the whole module (debug aid).
 func IdiomCensus(c *an.Ctx) []string {
 	var out []string
@@ -429,6 +608,7 @@ func IdiomCensus(c *an.Ctx) []string {
 
 // hits of the pinned tree, read and found harmless
 var idiomAccepted = map[string]string{
+	"lib/record:(*Record).SliceFromRecord: schema-alias":                                  "a deliberate read-only view: SliceFromRecord documents that the slice shares schema and column buffers with its source",
 	"engine/executor:(*ChunkImpl).Unmarshal: unassigned-error":                            "generated codec: every inner `if err := …; err != nil` returns its error directly; the final `return err` is the success return",
 	"engine/shelf:(*BlobGroup).Unmarshal: unassigned-error":                               "same generated shape: inner errors are returned directly",
 	"lib/msgservice:(*WriteStreamPointsRequest).Unmarshal: unassigned-error":              "same generated shape: inner errors are returned directly",
